@@ -3,7 +3,8 @@
 (git -C /repo checkout -- .), and record the verdict in seeded/<id>/meta.json ("detected_by"). /repo must be clean."""
 import json, os, subprocess, sys, time
 HERE = os.path.dirname(os.path.dirname(os.path.abspath(__file__)))
-ids = sys.argv[1:] or sorted(os.listdir(os.path.join(HERE, 'seeded')))
+SCRATCH = '--scratch' in sys.argv[1:]   # apply each patch to a scratch copy of /repo (VERIF_REPO) instead of /repo itself: sweeps can then run side by side
+ids = [a for a in sys.argv[1:] if a != '--scratch'] or sorted(os.listdir(os.path.join(HERE, 'seeded')))
 st = subprocess.run(['git', '-C', '/repo', 'status', '--porcelain'], capture_output=True, text=True).stdout.strip()
 if st:
     print("/repo is not clean:\n" + st); sys.exit(2)
@@ -12,22 +13,33 @@ for sid in ids:
     d = os.path.join(HERE, 'seeded', sid)
     meta = json.load(open(os.path.join(d, 'meta.json')))
     prop = meta['breaks_property']
-    r = subprocess.run(['git', '-C', '/repo', 'apply', os.path.join(d, 'patch.diff')], capture_output=True, text=True)
+    tree, env_extra = '/repo', {}
+    if SCRATCH:
+        import tempfile
+        tree = tempfile.mkdtemp(prefix='seedsw-', dir='/tmp')
+        subprocess.run(['rsync', '-a', '--exclude', 'target', '--exclude', '.git', '/repo/', tree + '/'], check=True)
+        env_extra = dict(VERIF_REPO=tree)
+        r = subprocess.run(['patch', '-p1', '-s', '-i', os.path.join(d, 'patch.diff')], cwd=tree, capture_output=True, text=True)
+    else:
+        r = subprocess.run(['git', '-C', '/repo', 'apply', os.path.join(d, 'patch.diff')], capture_output=True, text=True)
     if r.returncode != 0:
         print(sid, 'patch does not apply:', r.stderr[:200]); continue
     t0 = time.time()
     try:
         c = subprocess.run([os.path.join(HERE, 'check'), prop], capture_output=True, text=True, timeout=3600,
-                           env=dict(os.environ, VERIF_EVIDENCE_DIR='/var/tmp/gufo-verif-seed-evidence'))
+                           env=dict(os.environ, VERIF_EVIDENCE_DIR='/var/tmp/gufo-verif-seed-evidence' + ('-' + sid if SCRATCH else ''), **env_extra))
         out = c.stdout
         code = c.returncode
     finally:
-        subprocess.run(['git', '-C', '/repo', 'checkout', '--', '.'])
-        subprocess.run(['git', '-C', '/repo', 'clean', '-fdq', 'src'])
+        if SCRATCH:
+            subprocess.run(['rm', '-rf', tree])
+        else:
+            subprocess.run(['git', '-C', '/repo', 'checkout', '--', '.'])
+            subprocess.run(['git', '-C', '/repo', 'clean', '-fdq', 'src'])
     viol = [l for l in out.splitlines() if l.startswith('VIOLATION')]
     failed = [l.strip() for l in out.splitlines() if 'failed obligation' in l or 'could not be verified' in l]
     verdict = 'detected' if code == 1 and viol else ('inconclusive' if code == 2 else 'MISSED')
-    meta['detected_by'] = dict(check='./check %s (quick)' % prop, verdict=verdict, exit_code=code, wall_s=round(time.time() - t0, 1),
+    meta['detected_by'] = dict(check='./check %s (quick)' % prop + (' on a scratch copy of /repo with the patch applied (VERIF_REPO)' if SCRATCH else ''), verdict=verdict, exit_code=code, wall_s=round(time.time() - t0, 1),
                                violation_lines=viol[:4], failed_obligations=failed[:4],
                                replayed=[('no-failing-input-found' not in v) for v in viol[:4]])
     json.dump(meta, open(os.path.join(d, 'meta.json'), 'w'), indent=1)
